@@ -237,6 +237,37 @@ class C01(Prop):
                     break       # KeyError ends the history (model status 1)
                 for k in ks:
                     regd[h['owner']].discard((k, h['hid']))
+            elif r < 0.40:
+                # staleness probe: a key is dispatched (and cached), then ONE structural change that affects it, then the
+                # same key again with nothing else in between (any other change would refresh the cache and hide a miss)
+                pool = [h for h in handlers if not h['names']] if rng.random() < 0.5 else handlers
+                h = rng.choice(pool or handlers)
+                c = h['owner']
+                r0 = root(c)
+                have = all((k, h['hid']) in regd[c] for k in keys(h, None))
+                nm = rng.choice(h['names']) if h['names'] else rng.choice(NAMES)
+                ch = rng.choice(['*', comps[c], {'comp': c}] + ([h['chan']] if h['chan'] not in (None,) else []))
+                first, second = ('add', 'remove') if rng.random() < 0.5 else ('remove', 'add')
+                if first == 'remove' and not have:
+                    ops.append({'op': 'add', 'c': c, 'h': h['hid']})
+                    for k in keys(h, None):
+                        regd[c].add((k, h['hid']))
+                if first == 'add' and have:
+                    first = 'remove'
+                ops.append({'op': 'fire', 'x': r0, 'e': eid, 'n': nm, 'ch': ch})
+                eid += 1
+                ops.append({'op': 'flush', 'r': r0})
+                if first == 'add':
+                    ops.append({'op': 'add', 'c': c, 'h': h['hid']})
+                    for k in keys(h, None):
+                        regd[c].add((k, h['hid']))
+                else:
+                    ops.append({'op': 'remove', 'c': c, 'h': h['hid'], 'ev': None})
+                    for k in keys(h, None):
+                        regd[c].discard((k, h['hid']))
+                ops.append({'op': 'fire', 'x': r0, 'e': eid, 'n': nm, 'ch': ch})
+                eid += 1
+                ops.append({'op': 'flush', 'r': r0})
             elif r < 0.48:
                 roots = [i for i in range(NCOMP) if parent[i] == i]
                 c = rng.choice(roots)
